@@ -14,13 +14,16 @@ import (
 
 // C20: the real Normalize / HandlerType on synthetic handler lists.
 // A handler is (id, phys bytes, capability type numbers).  The id goes into DeviceInfo.Name (decimal) and is
-// read back from Device.Handlers[i].DeviceInfo.Name; eventName stays empty, so evdev.Open fails and the
-// handlers are grouped without touching /dev/input.
+// read back from Device.Handlers[i].DeviceInfo.Name; eventName is empty or names a node that does not exist, so
+// evdev.Open fails and the handlers are grouped without touching /dev/input. Event names and hardware ids come
+// from small pools, so one process sees the same (node, hardware id) with different capabilities (re-plug).
 
 type c20Handler struct {
 	ID   int   `json:"id"`
 	Phys []int `json:"phys"`
 	Caps []int `json:"caps"`
+	Ev   int   `json:"ev"` // 0 = empty event name; n > 0 = "event<9000+n>" (a node that does not exist: evdev.Open fails)
+	HW   int   `json:"hw"` // 0 = hardware id derived from ID (unique); n > 0 = shared hardware id n (interfaces of one composite device)
 }
 
 type c20Case struct {
@@ -77,12 +80,19 @@ func c20Info(h c20Handler) DeviceInfo {
 			caps[i] = evdev.EvType(v)
 		}
 	}
-	return DeviceInfo{
+	di := DeviceInfo{
 		ID:           InputID{Bus: 3, Vendor: uint16(h.ID), Product: uint16(h.ID >> 16), Version: 1},
 		Name:         strconv.Itoa(h.ID),
 		Phys:         string(b),
 		CapableTypes: caps,
 	}
+	if h.HW > 0 {
+		di.ID = InputID{Bus: 3, Vendor: 0x1234, Product: uint16(h.HW), Version: 0x111}
+	}
+	if h.Ev > 0 {
+		di.eventName = "event" + strconv.Itoa(9000+h.Ev)
+	}
+	return di
 }
 
 func c20One(c c20Case, repeat int) (res c20Res) {
